@@ -178,7 +178,7 @@ let stream_main ?(app=false) guard path =
    (phase 1) and treated as undecodable. *)
 let opt_n s = if s = "-" then None else Some (n_of_dec s)
 let str_opt_n = function None -> "-" | Some x -> dec_of_n x
-let unhex s = if s = "-" then [] else bytes_of_hex s
+let unhex s = if s = "-" || s = "e" then [] else bytes_of_hex s   (* "e" = empty but non-nil Go slice: the same value *)
 let hexd b = if b = [] then "-" else hex_of_bytes b
 let z_of_int i = if i >= 0 then Z.of_N (n_of_int i) else failwith "negative"
 
